@@ -88,8 +88,10 @@ def cases(ctx):
         samenames = rng.random() < 0.6
         lkn = ['k', 'j'][:nkey]
         rkn = lkn if samenames else ['rk', 'rj'][:nkey]
-        lhdr = lkn + ['a', 'a2'][:rng.randint(0, 2)]
-        rhdr = rkn + ['b', 'b2'][:rng.randint(0, 2)]
+        # field names need not be strings (years, codes): they travel into the output header as they are
+        nonstr = rng.random() < 0.12
+        lhdr = lkn + (['a', 2019] if nonstr else ['a', 'a2'])[:rng.randint(0, 2)]
+        rhdr = rkn + ([2020, 'b2'] if nonstr else ['b', 'b2'])[:rng.randint(0, 2)]
         rng.shuffle(lhdr)
         rng.shuffle(rhdr)
         ragged = 0.3 if (op != 'antijoin' and rng.random() < 0.3) else 0.0
